@@ -54,7 +54,7 @@ Inductive stmt :=
 | RenameColumn (t c d : name)
 | CreateIndex (i t : name) (cols : list name)
 | DropIndex (i : name)
-| InsertSelect              (* INSERT INTO .. SELECT ..: no schema effect *)
+| InsertSelect (dst src : name)   (* INSERT INTO dst (id) SELECT id FROM src: no schema effect *)
 | Other (ok : bool).        (* PRAGMA/UPDATE/...: no schema effect; ok=false = a failing statement *)
 
 Fixpoint nodup_names (l : list name) : bool :=
@@ -147,7 +147,11 @@ Definition exec (r : realm) (s : stmt) : option realm :=
       then Some (map (fun T => mkTab (t_name T) (t_cols T)
                                      (filter (fun x => negb (name_eqb (i_name x) i)) (t_idxs T))) r)
       else None
-  | InsertSelect => Some r
+  | InsertSelect dst src =>
+      match find_table r dst, find_table r src with
+      | Some _, Some _ => Some r
+      | _, _ => None
+      end
   | Other ok => if ok then Some r else None
   end.
 
